@@ -82,7 +82,7 @@ def run(tier):
             p = subprocess.run([PY, os.path.join(ROOT, "harness", "r_print.py"), arg], capture_output=True, text=True, cwd=ROOT,
                                env=_env({"VERIF_NATIVE": "1", "PYTHONPATH": ROOT}), timeout=300)
             if p.returncode == 1:
-                d = os.path.join(ROOT, "replays", "C15")
+                d = os.path.join(__import__("engine.driver").driver.OUT, "replays", "C15")
                 os.makedirs(d, exist_ok=True)
                 path = os.path.join(d, f"shape_{abs(hash(spec)) % 10**10}.json")
                 json.dump({"kind": "script", "script": "harness/r_print.py", "args": {"spec": spec, "word": word},
